@@ -104,7 +104,8 @@ def _classify(event, args):
             return ("import", "open-lib")
         return ("bad", "open:" + ("lib-write" if isinstance(path, (str, bytes)) and _under_roots(path) else "other-path"))
     if event in ("marshal.loads", "marshal.load", "code.__new__", "sys._getframe", "sys._getframemodulename",
-                 "object.__getattr__", "object.__setattr__", "object.__delattr__", "function.__new__", "builtins.id"):
+                 "object.__getattr__", "object.__setattr__", "object.__delattr__", "function.__new__", "builtins.id",
+                 "array.__new__"):        # array.__new__: the stdlib array module allocating a buffer inside mpmath/_pylong big-number code
         return ("import", event)
     if event in ("os.listdir", "os.scandir"):
         path = args[0] if args else None
